@@ -83,6 +83,18 @@ CLAIMED = {
             "grammar, role rule and related-event fields",
             "All peer frames (legal or not) from every catalogue entry; monitor state is part of "
             "the catalogue key, so closure covers monitor states too.", "7/C07"),
+    'C08': ("catalogue + symbolic step engine, public-API alphabet only (default and "
+            "validation-off configurations); a sender-side message grammar is judged on the "
+            "frames actually emitted against the observer state before the call",
+            "Every catalogue entry (new, inbound, pushed, upgraded streams) x every API operation; "
+            "role rules (client: only request HEADERS open streams, no push / alt-svc; server: no "
+            "HEADERS-opened streams, no PRIORITY) and the per-stream grammar info* final DATA* "
+            "trailers.", "7/C08"),
+    'C19': ("every shallow catalogue entry closed by each route (GOAWAY sent, GOAWAY received, "
+            "connection error), then one symbolic operation from the full API + frame alphabet "
+            "with symbolic window-manager content",
+            "Only GOAWAY frames may be emitted; every frame-producing or stream-opening call "
+            "must raise ProtocolError; received GOAWAY empties the pending output.", "7/C19"),
 }
 
 NOT_YET = {}
